@@ -279,6 +279,15 @@ static void trace_sched(int next, const int* cand, int nc, const int* cs, int ns
   n += snprintf(b + n, sizeof b - n, "]\n");
   syscall(SYS_write, trace_fd, b, n);
 }
+void trace_note(const char* fmt, ...) {   // free-form line in the trace (no decision point, no allocation)
+  if (trace_fd == -2) trace_open();
+  if (trace_fd < 0) return;
+  char b[300]; int n = snprintf(b, sizeof b, "%lu N t%d h%d ", (unsigned long)W->step, me, myhost);
+  va_list ap; va_start(ap, fmt); n += vsnprintf(b + n, sizeof b - n - 2, fmt, ap); va_end(ap);
+  if (n > (int)sizeof b - 2) n = sizeof b - 2;
+  b[n++] = '\n';
+  syscall(SYS_write, trace_fd, b, n);
+}
 static void trace_op(int kind, const void* addr, uint32_t lid) {
   if (trace_fd == -2) trace_open();
   if (trace_fd < 0) return;
